@@ -44,6 +44,11 @@ impl Rng {
     pub fn pick<'a, T>(&mut self, xs: &'a [T]) -> &'a T {
         &xs[self.below(xs.len() as u64) as usize]
     }
+    /// `below(bound)` many random bytes.
+    pub fn bytes_below(&mut self, bound: u64) -> Vec<u8> {
+        let n = self.below(bound) as usize;
+        self.bytes(n)
+    }
     pub fn bytes(&mut self, n: usize) -> Vec<u8> {
         (0..n).map(|_| self.u8()).collect()
     }
